@@ -157,7 +157,36 @@ def all_bodies(flavour, maxsize, thin=1):
         if n == maxsize and thin > 1:
             seqs = seqs[::thin]
         out.extend(seqs)
-    return out
+    return curated(flavour) + out
+
+
+R, B, C, M, W = ('R',), ('B',), ('C',), ('M',), ('W',)
+# larger bodies that are always included: loops in which continue, break and return/terminal paths meet
+CURATED = [
+    (('forever', (('if', (C,)), R)),),
+    (('for', (('if', (M, C)), R)),),
+    (('forever', (('ifelse', (C,), (R,)),)),),
+    (('forever', (('ifelse', (R,), (C,)),)),),
+    (('while', (('if', (C,)), R)), R),
+    (('forever', (('if', (B,)), ('if', (C,)), R)), R),
+    (('forever', (('forever', (('if', (B,)), C)), R)),),
+    (('forever', (('if', (R,)), ('if', (C,)), W)),),
+    (('forever', (('if', (C,)), ('if', (C,)), R)),),
+    (('for', (('while', (('if', (C,)), B)), ('if', (C,)), R)),),
+    (('forever', (('if', (M, C)), M, ('if', (C,)), R)),),
+    (('forever', (('ifelse', (('if', (C,)), R), (C,)),)),),
+    (('while', (('forever', (('if', (C,)), R)),)), R),
+    (('forever', (('if', (C,)), ('forever', (('if', (C,)), R)))),),
+]
+CURATED_YOU = [
+    (('forever', (('tryundo', (('T',), C), (R,)),)),),
+    (('forever', (('trystop', (('T',), ('if', (C,)), R), (C,)),)),),
+    (('forever', (('tryundo', (('if', (C,)), R), (('if', (C,)), R)),)),),
+]
+
+
+def curated(flavour):
+    return CURATED + (CURATED_YOU if flavour == 'you' else [])
 
 
 def thin_for(tier, flavour):
@@ -279,7 +308,7 @@ def check_src(st, src, nbits, nmarks, flavour, ret):
 def coverage(total, tier):
     cov = std_coverage(total, {
         'B': 'all statement sequences of total size <= ' + ('4' if tier == 'thorough' else '2 and size 3 (every 2nd for plain, every 5th for you/defeat functions)') + f' over atoms {ATOMS} (R return, B break, C continue, '
-             'D !is_defeat, T !truth_is_defeat(bit), W all_is_win, X all_is_broken, F defeat-function call, M plain statement) and compounds '
+             f'plus {len(CURATED)}+{len(CURATED_YOU)} curated larger loop bodies mixing continue/break/return; D !is_defeat, T !truth_is_defeat(bit), W all_is_win, X all_is_broken, F defeat-function call, M plain statement) and compounds '
              f'{COMPOUND}, context-valid, as body of {KINDS}; every statement preceded by a distinct marker; all 2^k assignments of the k condition bits',
     })
     for k in ('accepted', 'rejected', 'unspecified', 'lint_rejected', 'lint_identical', 'unreached_but_not_flagged'):
